@@ -230,6 +230,12 @@ pub const TARGETS: [(&str, &str, fn(&[u8]) -> Result<(), String>); 24] = [
 
 /// entry of the `prop_case` fuzz binary: the property comes from the environment (HV_FUZZ_PROP)
 pub fn prop_case_env(data: &[u8]) -> Result<(), String> {
+    // libfuzzer-sys installs a panic hook that aborts the process at once; some oracles EXPECT a panic from the
+    // library (the constructors documented to panic on invalid dates, `{:o}` outside the counter's range) and catch
+    // it. The quiet hook of `hv` is installed instead: panics unwind to `guard`, and a panic nobody catches still
+    // aborts through libfuzzer-sys's own catch_unwind around the target.
+    static HOOK: std::sync::Once = std::sync::Once::new();
+    HOOK.call_once(crate::engine::install_quiet_panic_hook);
     static PROP: std::sync::OnceLock<String> = std::sync::OnceLock::new();
     let p = PROP.get_or_init(|| std::env::var("HV_FUZZ_PROP").unwrap_or_else(|_| "C01".to_string()));
     prop_case(p, data)
